@@ -704,6 +704,21 @@ def int_rule(ctx, prefix, writer_only=False):
             inner = iv[0]["pat"]["elems"][0]
             vname = inner.get("name") if inner.get("k") == "p_ident" else None
             body = n["body"]
+            hs_name, val_name = "has_sign", "value"
+            # the arm may hand the three fields to a private helper: judge the helper, with its parameter names
+            bcall = body
+            while bcall.get("k") == "block" and len(bcall["stmts"]) == 1 and bcall["stmts"][0].get("k") == "expr":
+                bcall = bcall["stmts"][0]["e"]
+            if bcall.get("k") == "call" and vname:
+                cands = [g for g in ctx.sc.fns if g.name == sir.call_name(bcall) and g.body]
+                if len(cands) == 1:
+                    pn = [x for x in cands[0].param_names()]
+                    amap = {}
+                    for pname, a in zip(pn, bcall["args"]):
+                        t_ = sir.expr_str(sir.strip_ref(a)).lstrip("*")
+                        amap[t_] = pname
+                    if vname in amap and "has_sign" in amap and "value" in amap:
+                        body, vname, hs_name, val_name = cands[0].body, amap[vname], amap["has_sign"], amap["value"]
             probs = []
             if not vname:
                 probs.append("the integer value is matched but not bound, so it cannot be what is written")
@@ -724,11 +739,12 @@ def int_rule(ctx, prefix, writer_only=False):
                     probs.append("%d places write an explicit `+`" % len(plus))
                 else:
                     cj = [sir.expr_str(c).replace(" ", "") for c in _conj(plus[0]["cond"])]
-                    okc = "*has_sign" in cj and any(c in ("*%s>=0" % vname, "*%s>-1" % vname, "!%s.is_negative()" % vname, "!(*%s).is_negative()" % vname) for c in cj) and len(cj) == 2
+                    cj = [c.replace("*", "") for c in cj]
+                    okc = hs_name in cj and any(c in ("%s>=0" % vname, "%s>-1" % vname, "!%s.is_negative()" % vname, "!(%s).is_negative()" % vname) for c in cj) and len(cj) == 2
                     if not okc:
                         probs.append("`+` is written under `%s` (expected: has_sign and the integer is not negative, so that `+0` keeps its sign)" % "&&".join(cj))
                 nz = [x for x in sir.walk(body) if x.get("k") == "if" and any(y.get("k") == "mcall" and y["m"] == "push_str" and y["args"] and sir.strip_ref(y["args"][0]).get("v") == "-0" for y in sir.walk(x["then"]))]
-                if len(nz) != 1 or sorted(sir.expr_str(c).replace(" ", "") for c in _conj(nz[0]["cond"])) != sorted(["*%s==0" % vname, "value.is_sign_negative()"]):
+                if len(nz) != 1 or sorted(sir.expr_str(c).replace(" ", "").replace("*", "") for c in _conj(nz[0]["cond"])) != sorted(["%s==0" % vname, "%s.is_sign_negative()" % val_name]):
                     probs.append("negative zero is not written as `-0` under `%s == 0 && value.is_sign_negative()`" % vname)
             obs.append(ob("%s.int/%s/writer" % (prefix, kind), not probs, ctx.where(f), "; ".join(probs) if probs else "digits come from the integer `%s`; `+` iff has_sign and %s >= 0; `-0` kept" % (vname, vname),
                           witness=None if not probs else "z-index:16777217 / :nth-child(2n +0) change their value"))
@@ -1073,11 +1089,37 @@ def sourcemap_rules(ctx, prefix):
         nodes = list(sir.walk(f.body))
         incs = [n for n in nodes if n.get("k") == "binary" and n["op"] == "+=" and sir.expr_str(n["l"]) == "self.utf16_len"]
         problems = []
+        def utf16_measured(e, depth=0):
+            """the string expression whose UTF-16 length `e` computes (directly, or through a private one-line helper), else None"""
+            while e.get("k") in ("cast", "paren"):
+                e = e["e"]
+            if e.get("k") == "mcall" and e["m"] == "count" and not e["args"]:
+                r_ = e["recv"]
+                if r_.get("k") == "mcall" and r_["m"] == "encode_utf16":
+                    return sir.strip_ref(r_["recv"])
+                if r_.get("k") == "call" and (sir.call_path(r_) or "").endswith("encode_utf16") and r_["args"]:
+                    return sir.strip_ref(r_["args"][0])
+            if e.get("k") == "call" and depth < 2 and len(e["args"]) == 1:
+                cands = [g for g in sc.fns if g.name == sir.call_name(e) and g.body]
+                if len(cands) == 1 and cands[0].body["stmts"] and cands[0].body["stmts"][-1].get("k") == "expr":
+                    inner = utf16_measured(cands[0].body["stmts"][-1]["e"], depth + 1)
+                    pn = [x for x in cands[0].param_names() if x]
+                    if inner is not None and pn and sir.expr_str(inner) == pn[0]:
+                        return sir.strip_ref(e["args"][0])
+            return None
+        appended = set()
+        for n in nodes:
+            if n.get("k") == "mcall" and n["m"] == "push_str" and sir.expr_str(n["recv"]).replace(" ", "") in ("self.s", "(&mutself.s)") and n["args"]:
+                appended.add(sir.expr_str(sir.strip_ref(n["args"][0])))
+            if n.get("k") == "binary" and n["op"] == "+=" and sir.expr_str(n["l"]) == "self.s":
+                appended.add(sir.expr_str(sir.strip_ref(n["r"])))
         for inc in incs:
             r = sir.expr_str(inc["r"]).replace(" ", "")
             if r == "1":
                 continue
-            if "encode_utf16" in r and "output_start_pos.." in r and ".count()" in r:
+            m_ = utf16_measured(inc["r"])
+            ms = sir.expr_str(m_).replace(" ", "") if m_ is not None else None
+            if ms is not None and (ms in ("self.s[output_start_pos..]",) or (name == "append_raw" and sir.expr_str(m_) in appended)):
                 continue
             problems.append("column advanced by `%s` (must be the UTF-16 length of exactly the appended slice, or 1 for one ASCII character)" % r)
         if not incs:
@@ -1195,10 +1237,27 @@ def sourcemap_rules(ctx, prefix):
     if sp:
         f = sp[0]
         flds = {}
+        locs = {n["pat"]["name"]: n["init"] for n in sir.walk(f.body) if n.get("k") == "local" and n["pat"].get("k") == "p_ident" and n.get("init") is not None}
+        # names bound by destructuring the source location
+        destr = set()
+        for n in sir.walk(f.body):
+            if n.get("k") == "local" and n.get("init") is not None and "current_source_location" in sir.expr_str(n["init"]):
+                if n["pat"].get("k") == "p_ident":
+                    destr.add(n["pat"]["name"] + ".")
+                else:
+                    destr |= set(b for b, _p in sir.pat_bindings(n["pat"]))
+
+        def res(e, depth=0):
+            t = sir.expr_str(e).replace(" ", "")
+            if e.get("k") == "path" and len(e["segs"]) == 1 and e["segs"][0] in locs and depth < 2 and "current_source_location" not in sir.expr_str(locs[e["segs"][0]]):
+                return res(locs[e["segs"][0]], depth + 1)
+            return t
         for n in sir.walk(f.body):
             if n.get("k") == "struct":
-                flds = {x["name"]: sir.expr_str(x["e"]).replace(" ", "") for x in n["fields"]}
-        ok = flds.get("utf16_col") == "loc.column-1" and flds.get("line") == "loc.line"
+                flds = {x["name"]: res(x["e"]) for x in n["fields"]}
+        col, line = flds.get("utf16_col", ""), flds.get("line", "")
+        ok = bool(destr) and (col in ("loc.column-1", "column-1") or re.fullmatch(r"\w+\.column-1", col) is not None) and (line == "line" or line.endswith(".line")) \
+            and (col.split(".")[0] + "." in destr or "column" in destr) and (line in destr or line.split(".")[0] + "." in destr)
         obs.append(ob("%s.src/position" % prefix, ok, ctx.where(f), "positions are (line, column-1) of cssparser's current_source_location: %s" % ok))
     # the position of a StepToken is sampled immediately before a cssparser call that consumes exactly one token
     sps = [f for f in sc.fns if f.base == "StepParser" and f.body]
@@ -1229,7 +1288,10 @@ def sourcemap_rules(ctx, prefix):
             probs.append("%s: the statement before the token read is not `let position = self.position()`" % f.name)
             continue
         lits = [x for x in sir.walk(blk) if x.get("k") == "struct" and sir.expr_str(x).startswith("StepToken")]
-        if not lits or not all(any(fl["name"] == "position" and sir.expr_str(fl["e"]) == "position" for fl in x["fields"]) for x in lits):
+        wraps = [x for x in sir.walk(blk) if x.get("k") == "call" and (sir.call_path(x) or "").endswith("StepToken::wrap") and len(x["args"]) == 2]
+        ok_lits = all(any(fl["name"] == "position" and sir.expr_str(fl["e"]) == "position" for fl in x["fields"]) for x in lits)
+        ok_wraps = all(sir.expr_str(sir.strip_ref(x["args"][1])) in ("position", "position.clone()") for x in wraps)
+        if not (lits or wraps) or not ok_lits or not ok_wraps:
             probs.append("%s: the StepToken built from that read does not carry that position" % f.name)
         cm = [x for x in sir.walk(blk) if x.get("k") in ("if", "match") and "Token::Comment" in sir.expr_str(x.get("cond") or x.get("e")) + " ".join(sir.pat_str(a["pat"]) for a in x.get("arms", [])) + (sir.pat_str(x["cond"]["pat"]) if x.get("k") == "if" and x["cond"].get("k") == "let" else "")]
         if not cm:
